@@ -13,6 +13,7 @@ import (
 	"os"
 	"reflect"
 	"testing"
+	"time"
 
 	kcp "github.com/xtaci/kcp-go/v5"
 	"pgregory.net/rapid"
@@ -536,7 +537,7 @@ func TestC11KnownStaleFEC(t *testing.T) {
 		srv1.Write([]byte("late data of conversation 100")) // two datagrams of group 0 ...
 		srv1.Write([]byte("more late data"))
 		srv1.Write([]byte("and more")) // (the closed session's read loop swallows the first datagram on its way out)
-		s.SleepTo(20) // ... now waiting in the client socket's receive queue
+		s.SleepTo(20)                  // ... now waiting in the client socket's receive queue
 		cli2, _ := kcp.NewConn3(200, laddr, nil, 3, 2, cconn)
 		s.SleepTo(40)
 		buffered = cli2.VerifFEC().ShardPackets
@@ -551,4 +552,112 @@ func TestC11KnownStaleFEC(t *testing.T) {
 	if buffered > 0 {
 		rec.Finding(c11KeyStaleFEC, fmt.Sprintf("a session started for conversation 200 holds %d FEC packet(s) of conversation 100 in its decoder (left in the socket's receive queue); together with one genuine packet of the same group they are Reed-Solomon 'reconstructed' into a packet that is fed to the core", buffered))
 	}
+}
+
+// TestC11Backlog: more new peers than the accept backlog holds (128). Peers
+// beyond the backlog are not lost: once Accept makes room their
+// retransmissions create their sessions; every peer is accepted exactly once,
+// with its own address and conversation, and delivers its own bytes.
+func TestC11Backlog(t *testing.T) {
+	rec := hx.NewRecorder(t)
+	rapid.Check(t, func(rt *rapid.T) {
+		npeers := rapid.IntRange(120, 150).Draw(rt, "npeers")
+		acceptAfter := int64(rapid.SampledFrom([]int{50, 400, 3000}).Draw(rt, "acceptAfterMs"))
+		fec := rapid.SampledFrom([][2]int{{0, 0}, {2, 1}}).Draw(rt, "fec")
+		overflowed := false
+		rapid.SyncTest(rt, func(rt *rapid.T) {
+			s := sim.NewSessSim(0, 5)
+			s.DefaultDelay = 3
+			laddr := &net.UDPAddr{IP: net.IPv4(10, 0, 0, 1), Port: 29900}
+			lconn := s.Net.Listen(laddr)
+			L, _ := kcp.ServeConn(nil, fec[0], fec[1], lconn)
+			type peer struct {
+				addr *net.UDPAddr
+				conn *sim.PConn
+				cli  *kcp.UDPSession
+				conv uint32
+			}
+			var peers []*peer
+			var accepted []*kcp.UDPSession
+			defer func() {
+				for _, p := range peers {
+					p.cli.Close()
+					p.conn.Close()
+				}
+				for _, x := range accepted {
+					x.Close()
+				}
+				tbl, _ := L.VerifSessions()
+				for a := range tbl {
+					if x := L.VerifSession(a); x != nil {
+						x.Close()
+					}
+				}
+				L.Close()
+				lconn.Close()
+				s.Drain(20_000)
+			}()
+			for i := 0; i < npeers; i++ {
+				p := &peer{addr: &net.UDPAddr{IP: net.IPv4(10, 1, byte(i/200), byte(1+i%200)), Port: 3000 + i}, conv: uint32(7000 + i)}
+				p.conn = s.Net.Listen(p.addr)
+				p.cli, _ = kcp.NewConn3(p.conv, laddr, nil, fec[0], fec[1], p.conn)
+				p.cli.SetNoDelay(1, 20, 2, 1)
+				p.cli.Write([]byte{byte(i), byte(i >> 8), 0x5a})
+				peers = append(peers, p)
+			}
+			s.SleepTo(acceptAfter)
+			tbl, backlog := L.VerifSessions()
+			if backlog > 128 || len(tbl) > 128 {
+				rt.Fatalf("C11: %d sessions in the table, %d in the accept backlog (limit 128)", len(tbl), backlog)
+			}
+			if npeers > 128 {
+				overflowed = backlog == 128
+			}
+			// now the application accepts: every peer must come out exactly once
+			seen := map[string]int{}
+			deadline := s.Now() + 120_000
+			for len(seen) < npeers && s.Now() < deadline {
+				L.SetReadDeadline(s.Start.Add(time.Duration(s.Now()+50) * time.Millisecond))
+				c := s.Go("Accept", func() (int, error, any) { x, err := L.AcceptKCP(); return 0, err, x })
+				s.SleepTo(s.Now() + 60)
+				if !c.Done() {
+					rt.Fatalf("C11: Accept with a deadline did not return")
+				}
+				if c.Err != nil {
+					continue
+				}
+				x := c.Val.(*kcp.UDPSession)
+				accepted = append(accepted, x)
+				key := fmt.Sprintf("%s/%d", x.RemoteAddr(), x.GetConv())
+				seen[key]++
+				if seen[key] > 1 {
+					rt.Fatalf("C11: peer %s returned by Accept %d times", key, seen[key])
+				}
+			}
+			for i, p := range peers {
+				if seen[fmt.Sprintf("%s/%d", p.addr, p.conv)] != 1 {
+					rt.Fatalf("C11: peer no. %d (%s conv %d) of %d was never accepted although it keeps retransmitting and the backlog has room (accepted %d)", i, p.addr, p.conv, npeers, len(seen))
+				}
+			}
+			// every accepted session holds exactly its own peer's three bytes
+			for _, x := range accepted {
+				buf := make([]byte, 16)
+				x.SetReadDeadline(s.Start.Add(time.Duration(s.Now()+500) * time.Millisecond))
+				c := s.Go("Read", func() (int, error, any) { n, err := x.Read(buf); return n, err, nil })
+				s.SleepTo(s.Now() + 600)
+				idx := int(x.GetConv()) - 7000
+				if !c.Done() || c.Err != nil || c.N != 3 || buf[0] != byte(idx) || buf[1] != byte(idx>>8) || buf[2] != 0x5a {
+					rt.Fatalf("C11: session accepted for conv %d read n=%d err=%v bytes %x, want its own peer's 3 bytes", x.GetConv(), c.N, c.Err, buf[:3])
+				}
+			}
+		})
+		cl := []string{"backlog_cases"}
+		if overflowed {
+			cl = append(cl, "backlog_full_128")
+		}
+		rec.Case(hx.Hash64(npeers, acceptAfter, fec), overflowed, cl...)
+		if rec.WantSample() {
+			rec.Sample(map[string]any{"peers": npeers, "accept_after_ms": acceptAfter, "fec": fec})
+		}
+	})
 }
